@@ -446,7 +446,14 @@ pub fn run_workload(name: &str, n: usize, seed: u64, rep: &mut Report) {
                         .stack_size(256 << 10)
                         .spawn(move || -> Treap<KeyItem> {
                             match entry {
-                                0 => Treap { root: Some(Box::new(TreapNode::new(item(k as u64)))) },
+                                0 => {
+                                    // (the node first, its wrapper afterwards; no struct literal, so that a treap type with
+                                    // further fields still builds)
+                                    let node = TreapNode::new(item(k as u64));
+                                    let mut tr: Treap<KeyItem> = Treap::new();
+                                    tr.root = Some(Box::new(node));
+                                    tr
+                                }
                                 1 => Treap::from_item(item(k as u64)),
                                 2 => {
                                     let mut tr: Treap<KeyItem> = Treap::default();
